@@ -42,15 +42,21 @@ fn object_keys(types_ts: &str, name: &str, zod: bool) -> Option<Vec<String>> {
 
 /// the keys as printed (quotes kept)
 fn raw_object_keys(types_ts: &str, name: &str, zod: bool) -> Option<Vec<String>> {
+    Some(object_entries(types_ts, name, zod)?.into_iter().map(|(k, _)| k).collect())
+}
+
+/// (key as printed, value text) of every entry of the interface / z.object literal
+fn object_entries(types_ts: &str, name: &str, zod: bool) -> Option<Vec<(String, String)>> {
     let head = if zod { format!("export const {}Schema = z.object({{", name) } else { format!("export interface {} {{", name) };
     let start = types_ts.find(&head)? + head.len();
     let rest = &types_ts[start..];
     let mut depth = 0i32;
     let mut end = rest.len();
+    let mut q: Option<char> = None;
     for (i, ch) in rest.char_indices() {
-        match ch { '{' | '(' | '[' => depth += 1, '}' | ')' | ']' => { if depth == 0 { end = i; break; } depth -= 1; } _ => {} }
+        if let Some(x) = q { if ch == x { q = None; } continue; }
+        match ch { '"' | '\'' => q = Some(ch), '{' | '(' | '[' => depth += 1, '}' | ')' | ']' => { if depth == 0 { end = i; break; } depth -= 1; } _ => {} }
     }
-    let mut keys = Vec::new();
     // entries are separated by `,` `;` or a line break at nesting depth 0
     let mut entries: Vec<String> = vec![String::new()];
     let mut d = 0i32;
@@ -65,6 +71,7 @@ fn raw_object_keys(types_ts: &str, name: &str, zod: bool) -> Option<Vec<String>>
             _ => entries.last_mut().unwrap().push(ch),
         }
     }
+    let mut out = Vec::new();
     for e in entries {
         let l = e.trim();
         if l.is_empty() || l.starts_with("//") || l.starts_with('[') { continue; }
@@ -72,9 +79,9 @@ fn raw_object_keys(types_ts: &str, name: &str, zod: bool) -> Option<Vec<String>>
         let mut q: Option<char> = None;
         let mut cut = None;
         for (i, ch) in l.char_indices() { match (q, ch) { (Some(x), c) if c == x => q = None, (Some(_), _) => {}, (None, '"') | (None, '\'') => q = Some(ch), (None, ':') => { cut = Some(i); break; } _ => {} } }
-        if let Some(c) = cut { keys.push(l[..c].trim().trim_end_matches('?').to_string()); }
+        if let Some(c) = cut { out.push((l[..c].trim().trim_end_matches('?').to_string(), l[c + 1..].trim().to_string())); }
     }
-    Some(keys)
+    Some(out)
 }
 
 /// literals of `export type Name = "a" | "b";` (none) / `export const NameSchema = z.enum(["a", "b"]);` (zod)
@@ -190,14 +197,7 @@ fn references_resolve(files: &BTreeMap<String, String>, project_types: &[&str]) 
 
 /// the schema expression of `key` inside `export const <name>Schema = z.object({ ... })`
 fn zod_field(types_ts: &str, name: &str, key: &str) -> Option<String> {
-    let head = format!("export const {}Schema = z.object({{", name);
-    let start = types_ts.find(&head)? + head.len();
-    for l in types_ts[start..].lines() {
-        let t = l.trim();
-        if t.starts_with("})") { break; }
-        if let Some(rest) = t.strip_prefix(&format!("{}:", key)) { return Some(rest.trim().trim_end_matches(',').to_string()); }
-    }
-    None
+    object_entries(types_ts, name, true)?.into_iter().find(|(k, _)| k.trim_matches('"') == key).map(|(_, v)| v)
 }
 
 /// Tauri's command macro: lowerCamelCase of the Rust parameter name (words = non-empty pieces between underscores)
@@ -229,6 +229,72 @@ fn declared_names_legal(files: &BTreeMap<String, String>) -> Result<String, Stri
         }
     }
     Ok(format!("{} declarations", n))
+}
+
+/// C09: in a Zod types module no schema constant is read before its `export const` (mentions inside z.lazy(() => ..) excepted)
+fn schemas_defined_before_use(types_ts: &str) -> Result<String, String> {
+    let mut defined: BTreeSet<String> = BTreeSet::new();
+    let mut n = 0;
+    let mut current: Option<String> = None;
+    // only constants this module defines somewhere can be read too early (a foreign, unmapped type has no schema at all: C02's premise)
+    let all_defined: BTreeSet<String> = types_ts.lines().filter_map(|l| l.strip_prefix("export const ")).map(|r| r.chars().take_while(|c| c.is_alphanumeric() || *c == '_').collect::<String>()).collect();
+    for (ln, l) in types_ts.lines().enumerate() {
+        if let Some(rest) = l.strip_prefix("export const ") {
+            let name: String = rest.chars().take_while(|c| c.is_alphanumeric() || *c == '_').collect();
+            if name.ends_with("Schema") { current = Some(name); }
+        }
+        let lt = l.trim_start();
+        if lt.starts_with("//") || lt.starts_with('*') || lt.starts_with("/*") { continue; }
+        // `z.infer<typeof XSchema>` is a type-level mention, nothing is evaluated
+        if lt.starts_with("export type") || lt.starts_with("export interface") || l.contains("z.infer<typeof") { if l.trim_end().ends_with(';') { current = None; } continue; }
+        // identifiers ending in Schema on this line
+        let cs: Vec<char> = l.chars().collect();
+        let mut i = 0;
+        while i < cs.len() {
+            if cs[i].is_alphabetic() || cs[i] == '_' {
+                let st = i;
+                while i < cs.len() && (cs[i].is_alphanumeric() || cs[i] == '_') { i += 1; }
+                let id: String = cs[st..i].iter().collect();
+                if id.ends_with("Schema") && id.len() > 6 && Some(&id) != current.as_ref() {
+                    let lazy = l[..l.char_indices().nth(st).map_or(0, |(b, _)| b)].contains("z.lazy(");
+                    n += 1;
+                    if all_defined.contains(&id) && !defined.contains(&id) && !lazy { return Err(format!("types.ts:{} `{}` is read before its definition (inside {:?})", ln + 1, id, current)); }
+                }
+                continue;
+            }
+            i += 1;
+        }
+        if l.trim_end().ends_with(';') || l.trim() == "});" { if let Some(c) = current.take() { defined.insert(c); } }
+    }
+    Ok(format!("{} schema references", n))
+}
+
+/// C07 / C02 inside types.ts: a project type that is mentioned is also declared there
+fn types_module_is_closed(files: &BTreeMap<String, String>, project_types: &[&str]) -> Result<String, String> {
+    let t = files.get("types.ts").ok_or("no types.ts")?;
+    let exp = exports_of(t);
+    let cs: Vec<char> = t.chars().collect();
+    let mut i = 0;
+    let mut n = 0;
+    while i < cs.len() {
+        let c = cs[i];
+        if c == '/' && cs.get(i + 1) == Some(&'/') { while i < cs.len() && cs[i] != '\n' { i += 1; } continue; }
+        if c == '/' && cs.get(i + 1) == Some(&'*') { i += 2; while i + 1 < cs.len() && !(cs[i] == '*' && cs[i + 1] == '/') { i += 1; } i += 2; continue; }
+        if c == '"' || c == '\'' || c == '`' { let q = c; i += 1; while i < cs.len() && cs[i] != q { if cs[i] == '\\' { i += 1; } i += 1; } i += 1; continue; }
+        if c.is_alphabetic() || c == '_' || c == '$' {
+            let st = i;
+            while i < cs.len() && (cs[i].is_alphanumeric() || cs[i] == '_' || cs[i] == '$') { i += 1; }
+            let id: String = cs[st..i].iter().collect();
+            let base = id.strip_suffix("Schema").unwrap_or(&id);
+            if project_types.contains(&base) {
+                n += 1;
+                if !exp.contains(&id) { return Err(format!("types.ts mentions the project type `{}` but does not declare it", id)); }
+            }
+            continue;
+        }
+        i += 1;
+    }
+    Ok(format!("{} mentions", n))
 }
 
 // ---- serde's renaming rules, transcribed from the serde documentation (oracle)
@@ -277,6 +343,7 @@ fn main() {
         // parameter-name shapes: digits after underscores, doubled / leading underscores, one-letter words, non-ASCII
         let shapes = ["pos_2d", "size_3d_px", "on_2nd_pass", "line_1_start", "v_2", "_lead", "dou__ble", "x", "http_2_server", "a_b_c", "über_wert", "trailing_", "user_id", "r#type", "r#in_place"];
         src.push_str(&format!("#[tauri::command]\npub fn shapes({}) -> u32 {{ 0 }}\n", shapes.iter().map(|n| format!("{}: u32", n)).collect::<Vec<_>>().join(", ")));
+        src.push_str("#[tauri::command]\npub fn opt_paths(plain: Option<u32>, std_path: std::option::Option<u32>, core_path: core::option::Option<String>, abs_path: ::std::option::Option<bool>, required: u32) -> u32 { 0 }\n");
         src.push_str("#[tauri::command]\npub fn r#move(first_arg: String, r#type: u32, on_event: Channel<u32>) -> u32 { 0 }\n");
         let dir = root.join("inject/src");
         write_files(&dir, &[("lib.rs".to_string(), src)]);
@@ -325,6 +392,25 @@ fn main() {
             });
             rep.case("generated_files_are_lexically_wellformed", &format!("project=inject mode={}", mode), &|| lexical_wellformed(&generate(&dir, &root.join(format!("inject/out_{}", mode)), mode)?));
             rep.case("declared_function_names_are_legal", &format!("project=inject mode={}", mode), &|| declared_names_legal(&generate(&dir, &root.join(format!("inject/out_{}", mode)), mode)?));
+            rep.case("omittable_keys_are_the_option_parameters", &format!("fn opt_paths(plain: Option<u32>, std_path: std::option::Option<u32>, core_path: core::option::Option<String>, abs_path: ::std::option::Option<bool>, required: u32) mode={}", mode), &|| {
+                let files = generate(&dir, &root.join(format!("inject/out_{}", mode)), mode)?;
+                let t = files.get("types.ts").ok_or("no types.ts")?;
+                let want = [("plain", true), ("stdPath", true), ("corePath", true), ("absPath", true), ("required", false)];
+                for (k, opt) in want {
+                    let got = if mode == "zod" {
+                        let sch = zod_field(t, "OptPathsParams", k).ok_or(format!("OptPathsParamsSchema has no key {}", k))?;
+                        sch.ends_with(".optional()") || sch.ends_with(".nullish()")
+                    } else {
+                        let head = "export interface OptPathsParams {";
+                        let st = t.find(head).ok_or("OptPathsParams is not declared")? + head.len();
+                        let mut found = None;
+                        for l in t[st..].lines() { let l = l.trim(); if l.starts_with('}') { break; } if l.starts_with(&format!("{}?:", k)) { found = Some(true); } else if l.starts_with(&format!("{}:", k)) { found = Some(false); } }
+                        found.ok_or(format!("OptPathsParams has no key {}", k))?
+                    };
+                    if got != opt { return Err(format!("key {} may be omitted: {} — the Rust parameter is {}an Option", k, got, if opt { "" } else { "not " })); }
+                }
+                Ok("ok".into())
+            });
             rep.case("invoke_keys_follow_tauri_camel_case", &format!("fn shapes({}) mode={}", shapes.join(", "), mode), &|| {
                 let files = generate(&dir, &root.join(format!("inject/out_{}", mode)), mode)?;
                 let t = files.get("types.ts").ok_or("no types.ts")?;
@@ -362,6 +448,12 @@ fn main() {
             ("rename_upper", "#[serde(rename = \"HTTPCode\")]", Some("HTTPCode")),
             ("r#type", "", Some("type")),
             ("same_name", "#[serde(rename = \"same_name\")]", Some("same_name")),
+            ("ser_de", "#[serde(rename(serialize = \"accountId\", deserialize = \"account_id\"))]", Some("accountId")),
+            ("ser_only", "#[serde(rename(serialize = \"ser-only\"))]", Some("ser-only")),
+            ("de_first", "#[serde(rename(deserialize = \"in_name\", serialize = \"outName\"))]", Some("outName")),
+            ("de_only", "#[serde(rename(deserialize = \"only_in\"))]", Some("de_only")),
+            ("with_rename_word", "#[serde(skip_serializing_if = \"is_rename\", alias = \"y\")]", Some("with_rename_word")),
+            ("with_de_rename", "#[serde(deserialize_with = \"de_rename\", default)]", Some("with_de_rename")),
             ("rename_digit", "#[serde(rename = \"2fa\")]", Some("2fa")),
             ("rename_space", "#[serde(rename = \"display name\")]", Some("display name")),
         ];
@@ -379,10 +471,10 @@ fn main() {
             let mut keys = Vec::new();
             for (fname, attr, want) in &fields {
                 if !attr.is_empty() { body.push_str(&format!("    {}\n", attr)); }
-                let ty = if *fname == "ser_if" { "Option<u32>" } else { "u32" };
+                let ty = if *fname == "ser_if" || *fname == "with_rename_word" { "Option<u32>" } else { "u32" };
                 body.push_str(&format!("    pub {}: {},\n", fname, ty));
                 if let Some(w) = want {
-                    let explicit = attr.contains("rename = ");
+                    let explicit = attr.contains("rename = ") || (attr.contains("rename(") && attr.replace("deserialize", "").contains("serialize"));
                     let key = if explicit || conv.is_empty() { w.to_string() } else { apply_rule(conv, fname.strip_prefix("r#").unwrap_or(fname), false) };
                     keys.push((key, false));
                 }
@@ -395,6 +487,8 @@ fn main() {
             for v in variants { ebody.push_str(&format!("    {},\n", v)); lits.push(if conv.is_empty() { v.to_string() } else { apply_rule(conv, v, true) }); }
             ebody.push_str("    #[serde(rename = \"explicit\")]\n    Renamed,\n");
             lits.push("explicit".to_string());
+            ebody.push_str("    #[serde(rename(serialize = \"on-hold\", deserialize = \"onhold\"))]\n    OnHold,\n");
+            lits.push("on-hold".to_string());
             ebody.push_str("    #[serde(rename = \"SameName\")]\n    SameName,\n");
             lits.push("SameName".to_string());
             ebody.push_str("    #[serde(rename = \"HTTP\")]\n    Proto,\n");
@@ -508,6 +602,7 @@ fn main() {
             ("c-user-login", "app.emit(\"c-user-login\", 1u32).ok();"), ("c_user_login", "app.emit(\"c_user_login\", 1u32).ok();"),
             ("c:user:login", "app.emit(\"c:user:login\", 1u32).ok();"), ("CUserLogin", "app.emit(\"CUserLogin\", 1u32).ok();"), ("c-user-login2", "app.emit(\"c-user-login2\", 1u32).ok();"),
             // functions carrying cfg / other attributes and qualifiers
+            ("t-typed-vec-new", ""), ("t-typed-default", ""), ("t-typed-method", ""), ("t-typed-none", ""), ("t-typed-from", ""),
             ("f-cfg-not-test", ""), ("f-cfg-feature", ""), ("f-cfg-any", ""), ("f-attrs", ""), ("f-async-unsafe", ""), ("f-generic-payload", ""), ("f-private", ""),
         ];
         let extra_fns = "pub fn notify<R: tauri::Runtime, E: Emitter<R>>(app: &E) { app.emit(\"g-generic\", 1u32).ok(); }\n\
@@ -525,9 +620,16 @@ fn main() {
             #[allow(dead_code)]\n#[inline]\n#[doc = \"test helper\"]\npub(crate) fn attrs(app: &tauri::AppHandle) { app.emit(\"f-attrs\", 1u32).ok(); }\n\
             pub async unsafe fn odd_qualifiers(app: tauri::AppHandle) { app.emit(\"f-async-unsafe\", 1u32).ok(); }\n\
             pub fn generic_payload<T: Serialize + Clone>(app: &tauri::AppHandle, t: T) { app.emit(\"f-generic-payload\", t).ok(); }\n\
-            fn private_fn(app: &tauri::AppHandle) { app.emit(\"f-private\", 1u32).ok(); }\n";
+            fn private_fn(app: &tauri::AppHandle) { app.emit(\"f-private\", 1u32).ok(); }\n\
+            pub fn typed_lets(app: &tauri::AppHandle, state: Holder) {\n\
+                let queue: Vec<Player> = Vec::new(); app.emit(\"t-typed-vec-new\", &queue).ok();\n\
+                let fallback: Player = Default::default(); app.emit(\"t-typed-default\", fallback.clone()).ok();\n\
+                let count: u32 = state.count(); app.emit(\"t-typed-method\", count).ok();\n\
+                let best: Option<Player> = None; app.emit(\"t-typed-none\", best).ok();\n\
+                let label: String = String::from(\"x\"); app.emit(\"t-typed-from\", label).ok();\n\
+            }\n";
         let body: String = sites.iter().map(|(_, s)| format!("    {}\n", s)).collect();
-        let src = format!("{}use tauri::Emitter;\npub struct Holder {{ pub app: tauri::AppHandle }}\nimpl Holder {{ fn handle(&self) -> tauri::AppHandle {{ todo!() }} }}\n\
+        let src = format!("{}use tauri::Emitter;\npub struct Holder {{ pub app: tauri::AppHandle }}\nimpl Holder {{ fn handle(&self) -> tauri::AppHandle {{ todo!() }} fn count(&self) -> u32 {{ 0 }} }}\n\
             #[tauri::command]\npub async fn run(app: tauri::AppHandle, window: tauri::Window, webview: tauri::WebviewWindow, self_like: Holder, flag: bool) -> Result<(), String> {{\n{}}}\n\
             // a non-Tauri bus whose emit_to takes two arguments, and calls with too few arguments: must be ignored, never panic\n\
             pub fn other(bus: Bus, app: tauri::AppHandle) {{ bus.sink().emit_to(\"main\", \"b-two-args\"); app.emit_to(\"only-target\"); app.emit(\"b-one-arg\"); app.emit(); }}\n{}", HDR, body, extra_fns);
@@ -546,6 +648,22 @@ fn main() {
             rep.case("generated_files_are_lexically_wellformed", &format!("project=emits mode={}", mode), &|| lexical_wellformed(files.as_ref().map_err(|e| e.clone())?));
             rep.case("type_references_resolve", &format!("project=emits mode={}", mode), &|| references_resolve(files.as_ref().map_err(|e| e.clone())?, &["Player", "Holder"]));
             rep.case("declared_function_names_are_legal", &format!("project=emits mode={}", mode), &|| declared_names_legal(files.as_ref().map_err(|e| e.clone())?));
+            rep.case("payload_types_follow_the_declarations", &format!("project=emits mode={}", mode), &|| {
+                let files = files.as_ref().map_err(|e| e.clone())?;
+                let ev = files.get("events.ts").ok_or("no events.ts")?;
+                // (event, payload type of the listener): the declared type of the payload variable, translated
+                let want = [("t-typed-vec-new", "types.Player[]"), ("t-typed-default", "types.Player"), ("t-typed-method", "number"), ("t-typed-none", "types.Player | null"), ("t-typed-from", "string"),
+                    ("p-vec-struct", "types.Player[]"), ("p-lifetime-opt", "types.Player | null"), ("p-lifetime-vec", "string[]"), ("a-ref-payload", "boolean"), ("a-stmt", "number"), ("f-generic-payload", "unknown")];
+                for (name, ty) in want {
+                    let needle = format!(">('{}',", name);
+                    let p = ev.find(&needle).ok_or(format!("no listener subscribed to '{}'", name))?;
+                    let line_start = ev[..p].rfind('\n').map_or(0, |i| i + 1);
+                    let line = &ev[line_start..p];
+                    let got = line.trim().strip_prefix("return listen<").ok_or(format!("unexpected listen line `{}`", line))?;
+                    if got != ty { return Err(format!("listener of '{}' takes `{}`, the payload's declared type translates to `{}`", name, got, ty)); }
+                }
+                Ok("ok".into())
+            });
             rep.case("one_listener_per_event", &format!("project=emits mode={}", mode), &|| {
                 let files = files.as_ref().map_err(|e| e.clone())?;
                 let ev = files.get("events.ts").ok_or("no events.ts although the project emits events")?;
@@ -574,7 +692,7 @@ fn main() {
             format!("{}\n", "#[derive(Serialize, Deserialize, Clone)]\npub struct Summary { pub total: u32, pub last: Progress }"),
             "#[tauri::command]\npub fn start(app: tauri::AppHandle, update: Progress) -> u32 { app.emit(\"started\", update).ok(); 0 }\n".to_string(),
             "fn build_summary() -> Summary { todo!() }\n#[tauri::command]\npub fn finish(app: tauri::AppHandle) -> Summary { let update = build_summary(); app.emit(\"finished\", update.clone()).ok(); update }\n".to_string(),
-            "#[tauri::command]\npub fn poll(update: Option<Summary>) -> Vec<Progress> { vec![] }\n".to_string(),
+            "#[tauri::command]\npub fn poll(update: Option<Summary>, on_progress: tauri::ipc::Channel<Progress>) -> Vec<Progress> { vec![] }\n".to_string(),
             "pub fn decoy_helper(update: Progress) -> Progress { update }\n".to_string(),
             // one event name emitted at three sites that disagree about the payload: the merged listener must not depend on the order of the sites
             "pub fn multi_a(app: &tauri::AppHandle, update: Progress) { app.emit(\"multi\", update).ok(); }\n".to_string(),
@@ -587,6 +705,7 @@ fn main() {
             ("one-file-reversed", vec![("lib.rs".to_string(), format!("{}{}", hdr, items.iter().rev().cloned().collect::<Vec<_>>().join("")))]),
             ("two-files", vec![("a.rs".to_string(), format!("{}{}{}{}{}{}", hdr, items[0], items[2], items[5], items[6], items[8])), ("b.rs".to_string(), format!("{}{}{}{}{}", hdr, items[1], items[3], items[4], items[7]))]),
             ("two-files-swapped", vec![("b.rs".to_string(), format!("{}{}{}{}{}{}", hdr, items[8], items[5], items[2], items[0], items[6])), ("a.rs".to_string(), format!("{}{}{}{}{}", hdr, items[7], items[4], items[3], items[1]))]),
+            ("same-named-helpers-first", vec![("lib.rs".to_string(), format!("{}mod helpers {{\n    pub fn poll() {{}}\n    pub fn start(x: u32) -> u32 {{ x }}\n    pub fn finish() {{}}\n}}\n{}", hdr, items.join("")))]),
             ("one-file-rotated", vec![("lib.rs".to_string(), format!("{}{}{}", hdr, items[4..].join(""), items[..4].join("")))]),
             ("one-file-interleaved", vec![("lib.rs".to_string(), format!("{}{}", hdr, [8usize, 0, 6, 1, 2, 7, 3, 4, 5].iter().map(|i| items[*i].clone()).collect::<Vec<_>>().join("")))]),
             ("with-noise", vec![("lib.rs".to_string(), format!("{}// comment\n\n\n{}", hdr, items.iter().map(|s| format!("/* noise */\n{}\n\npub fn unrelated_{}() {{}}\n", s, s.len())).collect::<Vec<_>>().join("")))]),
@@ -734,6 +853,9 @@ fn main() {
             ("f_email_len", "#[validate(email, length(max = 64))]", "String", true, false, vec![".max(64"], vec![]),
             ("f_len_then_email", "#[validate(length(min = 3), email)]", "String", true, false, vec![".min(3"], vec![]),
             ("f_two_attrs", "#[validate(email)]\n    #[validate(length(min = 5))]", "String", true, false, vec![".min(5"], vec![]),
+            ("f_len_then_url_attr", "#[validate(length(min = 3, max = 20, message = \"3 to 20\"))]\n    #[validate(url)]", "String", false, true, vec![".min(3", ".max(20", "3 to 20"], vec![]),
+            ("f_len_email_url_attrs", "#[validate(length(max = 64))]\n    #[validate(email)]\n    #[validate(url)]", "String", true, true, vec![".max(64"], vec![]),
+            ("f_email_len_url_attrs", "#[validate(email)]\n    #[validate(length(min = 7))]\n    #[validate(url)]", "String", true, true, vec![".min(7"], vec![]),
             ("f_msg_mentions", "#[validate(length(min = 1, message = \"not an email or url\"))]", "String", false, false, vec![".min(1", "not an email or url"], vec![]),
             ("f_custom_str", "#[validate(custom(function = \"check_email_domain\"))]", "String", false, false, vec![], vec![]),
             ("f_range_neg", "#[validate(range(min = -10, max = -1.5))]", "f64", false, false, vec![".min(-10", ".max(-1.5"], vec![]),
@@ -790,6 +912,8 @@ fn main() {
         let returns: Vec<(&str, &str, &str)> = vec![
             ("r_unit", "()", "void"), ("r_res_unit", "Result<(), String>", "void"), ("r_res_tuple", "Result<(String, HashMap<String, u32>), String>", "[string, Record<string, number>]"),
             ("r_opt_t1", "Option<(u8,)>", "[number] | null"), ("r_t1", "(String,)", "[string]"), ("r_vec", "Vec<Leaf>", "types.Leaf[]"), ("r_ref", "&'static str", "string"),
+            ("r_opt_tuple_opt", "Option<(String, Option<u32>)>", "[string, number | null] | null"), ("r_res_opt_tuple_opt", "Result<Option<(String, Option<u32>)>, String>", "[string, number | null] | null"),
+            ("r_opt_vec_tuple_opt", "Option<Vec<(String, Option<u32>)>>", "[string, number | null][] | null"), ("r_opt_map_opt", "Option<HashMap<String, Option<u32>>>", "Record<string, number | null> | null"),
         ];
         let cmds: String = returns.iter().map(|(n, t, _)| format!("#[tauri::command]\npub fn {}() -> {} {{ todo!() }}\n", n, t)).collect();
         let src = format!("{}use std::collections::{{HashSet, BTreeSet, BTreeMap}};\n#[derive(Serialize, Deserialize)]\npub struct Leaf {{ pub id: u32 }}\n#[derive(Serialize, Deserialize)]\npub struct Table {{\n{}}}\n#[tauri::command]\npub fn table(t: Table) -> u32 {{ 0 }}\n{}", HDR, body, cmds);
@@ -852,7 +976,9 @@ fn main() {
             #[tauri::command]\npub fn lookup(id: Uuid, at: Option<Timestamp>, on_tick: Channel<Timestamp>) -> Result<Option<Uuid>, String> {{ Ok(None) }}\n\
             #[tauri::command]\npub fn accounts(app: tauri::AppHandle, first: Uuid) -> Vec<Account> {{ app.emit(\"account:seen\", first).ok(); vec![] }}\n\
             #[tauri::command]\npub fn ids(on_id: Channel<Vec<Uuid>>) -> HashMap<Uuid, Vec<Timestamp>> {{ todo!() }}\n\
-            pub fn touch(app: &tauri::AppHandle, when: Option<Timestamp>) {{ app.emit(\"account:touched\", when).ok(); }}\n", HDR);
+            pub fn touch(app: &tauri::AppHandle, when: Option<Timestamp>) {{ app.emit(\"account:touched\", when).ok(); }}\n\
+            #[derive(Serialize, Deserialize, Clone)]\npub struct Stamped {{ pub at: ext::Stamp, pub all: Vec<ext::Stamp> }}\n\
+            #[tauri::command]\npub fn stamps(s: Stamped, first: ext::Stamp, on_stamp: Channel<ext::Stamp>, on_many: Channel<Vec<Option<ext::Stamp>>>) -> Result<Vec<ext::Stamp>, String> {{ Ok(vec![]) }}\n", HDR);
         let dir = root.join("mapped/src");
         write_files(&dir, &[("lib.rs".to_string(), src)]);
         for mode in ["none", "zod"] {
@@ -862,7 +988,7 @@ fn main() {
             cfg.project_path = dir.to_string_lossy().to_string();
             cfg.output_path = out.to_string_lossy().to_string();
             cfg.validation_library = mode.to_string();
-            cfg.type_mappings = Some([("Uuid".to_string(), "string".to_string()), ("Timestamp".to_string(), "number".to_string())].into_iter().collect());
+            cfg.type_mappings = Some([("Uuid".to_string(), "string".to_string()), ("Timestamp".to_string(), "number".to_string()), ("ext::Stamp".to_string(), "number".to_string())].into_iter().collect());
             let res: Result<BTreeMap<String, String>, String> = generate_from_config(&cfg).map_err(|e| format!("generate_from_config returned Err: {}", e)).and_then(|_| {
                 let mut m = BTreeMap::new();
                 for e in fs::read_dir(&out).map_err(|e| e.to_string())?.flatten() { if e.path().is_file() { m.insert(e.file_name().to_string_lossy().to_string(), fs::read_to_string(e.path()).unwrap_or_default()); } }
@@ -874,7 +1000,7 @@ fn main() {
                     if !f.ends_with(".ts") { continue; }
                     for (ln, l) in text.lines().enumerate() {
                         if l.trim_start().starts_with("//") || l.trim_start().starts_with('*') || l.trim_start().starts_with("/*") { continue; }
-                        for n in ["Uuid", "Timestamp"] {
+                        for n in ["Uuid", "Timestamp", "Stamp", "ext"] {
                             let mut from = 0;
                             while let Some(p) = l[from..].find(n) {
                                 let a = from + p; let b = a + n.len();
@@ -888,7 +1014,7 @@ fn main() {
                 }
                 Ok("ok".into())
             });
-            rep.case("type_references_resolve", &format!("project=mapped mode={}", mode), &|| references_resolve(res.as_ref().map_err(|e| e.clone())?, &["Account"]));
+            rep.case("type_references_resolve", &format!("project=mapped mode={}", mode), &|| references_resolve(res.as_ref().map_err(|e| e.clone())?, &["Account", "Stamped"]));
             rep.case("generated_files_are_lexically_wellformed", &format!("project=mapped mode={}", mode), &|| lexical_wellformed(res.as_ref().map_err(|e| e.clone())?));
         }
     }
@@ -907,6 +1033,84 @@ fn main() {
                     if !exp.contains(n) && !exp.contains(&format!("{}Schema", n)) { return Err(format!("{} is a serde struct reachable from command `hold` but types.ts does not declare it", n)); }
                 }
                 Ok("ok".into())
+            });
+        }
+    }
+    // ============================================================ C09 / C07 / C10 / C01: a type shared by an event, a parameter and a field; foreign and project types in one field; regeneration
+    {
+        let src = format!("{}use tauri::Emitter;\nuse tauri::ipc::Channel;\n\
+            #[derive(Serialize, Deserialize, Clone)]\npub enum Priority {{ Low, High }}\n\
+            #[derive(Serialize, Deserialize, Clone)]\npub struct Task {{ pub title: String, pub priority: Priority }}\n\
+            #[derive(Serialize, Deserialize, Clone)]\npub struct Board {{ pub tasks: Vec<Task>, pub archive: HashMap<String, Vec<Task>> }}\n\
+            #[derive(Serialize, Deserialize, Clone)]\npub struct Attachment {{ pub name: String }}\n\
+            #[derive(Serialize, Deserialize, Clone)]\npub struct Revision {{ pub n: u32 }}\n\
+            #[derive(Serialize, Deserialize, Clone)]\npub struct Author {{ pub name: String }}\n\
+            #[derive(Serialize, Deserialize, Clone)]\npub struct Doc {{ pub files: HashMap<Uuid, Attachment>, pub revs: Vec<(Instant, Revision)>, pub who: (PathBuf, Author), pub note: Option<Stamp> }}\n\
+            #[tauri::command]\npub fn add_task(app: tauri::AppHandle, task: Task) -> Board {{ app.emit(\"task-added\", task.clone()).ok(); todo!() }}\n\
+            #[tauri::command]\npub fn load_doc(id: u32, retries: Option<u32>, on_progress: Channel<u32>) -> Doc {{ todo!() }}\n\
+            #[tauri::command]\npub fn boards() -> Vec<Board> {{ vec![] }}\n", HDR);
+        let dir = root.join("shared/src");
+        write_files(&dir, &[("lib.rs".to_string(), src)]);
+        let tys = ["Priority", "Task", "Board", "Attachment", "Revision", "Author", "Doc"];
+        for mode in ["none", "zod"] {
+            let files = generate(&dir, &root.join(format!("shared/out_{}", mode)), mode);
+            rep.case("mentioned_project_types_are_declared", &format!("project=shared mode={}", mode), &|| types_module_is_closed(files.as_ref().map_err(|e| e.clone())?, &tys));
+            rep.case("type_references_resolve", &format!("project=shared mode={}", mode), &|| references_resolve(files.as_ref().map_err(|e| e.clone())?, &tys));
+            rep.case("generated_files_are_lexically_wellformed", &format!("project=shared mode={}", mode), &|| lexical_wellformed(files.as_ref().map_err(|e| e.clone())?));
+            if mode == "zod" {
+                rep.case("schemas_defined_before_use", "project=shared", &|| schemas_defined_before_use(files.as_ref().map_err(|e| e.clone())?.get("types.ts").ok_or("no types.ts")?));
+                // C10: what the wrapper hands to safeParse is the whole declared parameter object; a schema that rejects unknown
+                // keys must therefore know every declared key (channels included)
+                rep.case("parameter_schema_accepts_the_declared_object", "fn load_doc(id, retries: Option<u32>, on_progress: Channel<u32>)", &|| {
+                    let files = files.as_ref().map_err(|e| e.clone())?;
+                    let t = files.get("types.ts").ok_or("no types.ts")?;
+                    let head = "export const LoadDocParamsSchema = z.object({";
+                    let st = t.find(head).ok_or("no LoadDocParamsSchema")?;
+                    let end = st + t[st..].find(";").ok_or("unterminated schema")?;
+                    let decl = &t[st..end];
+                    let schema_keys: Vec<String> = object_keys(t, "LoadDocParams", true).unwrap_or_default();
+                    let rejects_unknown = decl.contains(".strict()") || decl.contains("z.strictObject(") || decl.contains(".catchall(z.never())");
+                    if rejects_unknown && !schema_keys.iter().any(|k| k == "onProgress") {
+                        return Err(format!("LoadDocParamsSchema rejects unknown keys ({}) but the wrapper passes the declared object, which carries the channel key onProgress; schema keys: {:?}", if decl.contains(".strict()") { ".strict()" } else { "strict object" }, schema_keys));
+                    }
+                    if !schema_keys.iter().any(|k| k == "id") || !schema_keys.iter().any(|k| k == "retries") { return Err(format!("schema keys {:?} lack a declared parameter", schema_keys)); }
+                    Ok(format!("{:?}", schema_keys))
+                });
+            }
+        }
+        // schema order for every other zod output of this corpus with an acyclic type graph
+        for proj in ["serde", "modes", "table", "mapped", "emits", "inject", "validators"] {
+            rep.case("schemas_defined_before_use", &format!("project={}", proj), &|| {
+                let t = fs::read_to_string(root.join(format!("{}/out_zod/types.ts", proj))).map_err(|e| format!("{}: {}", proj, e))?;
+                schemas_defined_before_use(&t)
+            });
+        }
+        // C01 (and C13): regenerating a smaller project into a directory that already holds bindings gives the files of a fresh run
+        let small = format!("{}#[derive(Serialize, Deserialize, Clone)]\npub struct Task {{ pub title: String }}\n#[tauri::command]\npub fn add_task(task: Task) -> u32 {{ 0 }}\n", HDR);
+        let dir2 = root.join("shared_small/src");
+        write_files(&dir2, &[("lib.rs".to_string(), small)]);
+        for mode in ["none", "zod"] {
+            rep.case("regeneration_into_used_directory_equals_fresh_generation", &format!("shared -> shared_small mode={}", mode), &|| {
+                let used = root.join(format!("shared/out_{}", mode));
+                let strip = |m: BTreeMap<String, String>| -> BTreeMap<String, String> { m.into_iter().filter(|(k, _)| k.ends_with(".ts")).map(|(k, v)| (k, v.lines().filter(|l| !l.contains("Generated at:")).collect::<Vec<_>>().join("\n"))).collect() };
+                // second run into the used directory (generate() would wipe it first: call the library directly)
+                let mut cfg = GenerateConfig::default();
+                cfg.project_path = dir2.to_string_lossy().to_string();
+                cfg.output_path = used.to_string_lossy().to_string();
+                cfg.validation_library = mode.to_string();
+                generate_from_config(&cfg).map_err(|e| format!("generate_from_config returned Err: {}", e))?;
+                let mut again = BTreeMap::new();
+                for e in fs::read_dir(&used).map_err(|e| e.to_string())?.flatten() { if e.path().is_file() { again.insert(e.file_name().to_string_lossy().to_string(), fs::read_to_string(e.path()).unwrap_or_default()); } }
+                let fresh = generate(&dir2, &root.join(format!("shared_small/out_{}", mode)), mode)?;
+                let (again, fresh) = (strip(again), strip(fresh));
+                for (f, text) in &fresh {
+                    match again.get(f) { None => return Err(format!("{} is missing after regeneration", f)), Some(t2) if t2 != text => {
+                        let at = text.lines().zip(t2.lines()).position(|(a, b)| a != b).unwrap_or(text.lines().count().min(t2.lines().count()));
+                        return Err(format!("{} differs from a fresh generation from line {} on (fresh has {} lines, regenerated {} lines)", f, at + 1, text.lines().count(), t2.lines().count()));
+                    } _ => {} }
+                }
+                lexical_wellformed(&again)?;
+                Ok(format!("{} files", fresh.len()))
             });
         }
     }
